@@ -403,6 +403,29 @@ template <class Mesh> struct HistRun {
         w_add_cell(r, hfs, check, true, !check || surface_closed(r, hfs));
         st.add("probe_pillow_cell");
     }
+    // n tetrahedra around one axis edge (closed ring or open fan): edges and vertices of high valence, incl. sizes around 32 where
+    // small-buffer / threshold logic in a container or iterator would switch paths
+    void op_add_fan(R &r, const Op &q) {
+        if (KID == 2) return;
+        static const int sizes[] = {3, 4, 5, 6, 8, 12, 16, 31, 32, 33, 34, 40};
+        int n = sizes[(unsigned)q.a[0] % 12];
+        if (n > 8 && !plan.c("fan_big", 0)) n = 3 + (unsigned)q.a[0] % 6;
+        bool closed = q.a[1] & 1;
+        int a = w_add_vertex(r, true), b = w_add_vertex(r, true);
+        std::vector<int> ring;
+        for (int i = 0; i < n + (closed ? 0 : 1); ++i) ring.push_back(w_add_vertex(r, true));
+        for (int i = 0; i < n; ++i) {
+            int p = ring[(size_t)i], qn = ring[(size_t)((i + 1) % (int)ring.size())];
+            // tet (a, b, p, qn) through its four halffaces
+            std::vector<std::vector<int>> cyc = {{a, b, p}, {a, qn, b}, {a, p, qn}, {b, qn, p}};
+            std::vector<int> hfs;
+            for (auto &c : cyc) { int hf = obtain_halfface(r, c); if (hf < 0) return; hfs.push_back(hf); }
+            if (KID == 1 && (q.a[2] & 1) && !any_bu_off(r)) op_add_cell_vertices(r, {a, b, p, qn}, false);
+            else w_add_cell(r, hfs, (q.a[3] & 1) != 0, true, true);
+        }
+        st.add(n >= 31 ? "probe_fan_valence_ge31" : "probe_fan_small");
+        if (closed) st.add("probe_fan_closed");
+    }
     void op_add_poly(R &r, const Op &q, int t) {
         const PolyTemplate &T = poly_template(t);
         if (KID == 1 && t != 0) return;
@@ -519,8 +542,9 @@ template <class Mesh> struct HistRun {
         for (int e = 0; e < r.m.n_uids(BE); ++e) if (r.m.alive[BE][e]) { outs[r.m.E[e].from].push_back(2 * e); outs[r.m.E[e].to].push_back(2 * e + 1); }
         std::vector<std::vector<int>> found;
         std::vector<int> path;
+        long budget = 20000;   // hub vertices of the width-boundary meshes have hundreds of outgoing halfedges: bound the search, deterministically
         std::function<void(int)> dfs = [&](int v) {
-            if (found.size() >= 24) return;
+            if (found.size() >= 24 || --budget < 0) return;
             if ((int)path.size() == len) { if (v == start) found.push_back(path); return; }
             for (int h : outs[v]) {
                 if (std::find(path.begin(), path.end(), h) != path.end()) continue;
@@ -693,6 +717,7 @@ template <class Mesh> struct HistRun {
         else if (k == "ADD_PRISM") op_add_poly(r, q, 2);
         else if (k == "ADD_PYR") op_add_poly(r, q, 3);
         else if (k == "ADD_PILLOW") op_add_pillow(r, q);
+        else if (k == "ADD_FAN") op_add_fan(r, q);
         else if (k == "BAD_FACE" || k == "BAD_CELL") op_bad(r, q);
         else if (k == "DEL_V") op_delete(r, q, BV);
         else if (k == "DEL_E") op_delete(r, q, BE);
